@@ -15,7 +15,8 @@ import sched
 ID = "C12"
 TRUSTED = ["CPython thread scheduling, the GIL switch interval, OS stdin/tty semantics and interpreter shutdown with a blocked "
            "daemon thread are exercised (subprocess runs under 5 stdin conditions), not modelled",
-           "the scheduler stand-ins (fake threading/time/input module attributes) deliver events only at main-loop steps"]
+           "the scheduler stand-ins (fake threading/time/input module attributes) deliver events only at main-loop steps",
+           "translator tie of the session loop: harness/translate_session.py (ast -> Gallina, fail closed; accepted subset and what it does not model in its docstring) and the meaning coq/theories/SessionRt.v gives to `while`, break, try/except OSError, `if limit:` and `x is None`; every collaborator of CrackingSession.run / _save_session (queue, grammar object with quit flag and OMEN counters, save configuration and file, keyboard thread) is an operation on an abstract world: the translated text equals SessionModel.m_run for every world (C12_source_run_is_model), and the property theorems instantiate the world with the collaborators of Session.v (SessionModel.sworld) or constrain it by a contract (quiet_world)"]
 ASSUMES = ["atomic steps of the main loop: one per pop+quit-check, one per emitted guess",
            "a 'q' line is two events (flag set, thread ended) that may be separated by main-loop steps"]
 
@@ -302,6 +303,9 @@ def run(ctx):
             "broken stderr / quit (flag and thread end together or 1, 2, 5 steps apart) at every atomic step, delivered to the real "
             "keypress thread by a scheduler; thorough adds random pairs; plus the CLI under tty / open pipe / pipe at EOF / /dev/null / "
             "closed stdin; non-trivial = the event lands strictly inside the run; distinct by (ruleset, schedule)" % maxT)
+    # translator tie of the session loop (CrackingSession.run = SessionModel.m_run = Session.run_session)
+    import session_tie
+    corr.append(session_tie.obligation("session"))
     return {"evaluations": dist["schedules"] + dist["stdin_runs"], "distinct_nontrivial": nontrivial, "rule": rule,
             "samples": samples, "corr": corr, "violations": vio, "dist": dist}
 
